@@ -260,6 +260,17 @@ class ChainManager(Manager):
 
         self.transaction_pool = [t for t in self.transaction_pool if is_valid(t)]
 
+    def rollback_to_last_known_valid_coinstate(self) -> None:
+        # reading last_known_valid_coinstate and making it the current state is one step under the lock: another thread (the
+        # miner, when it finds a block) may call set_coinstate() at any moment, and must not be overwritten with a state that
+        # was read before its call.
+        with self.lock:
+            if self.last_known_valid_coinstate:
+                self.local_peer.logger.info("%15s ChainManager.rollback_to_last_known_valid_coinstate(%s)" % (
+                    "", self.last_known_valid_coinstate))
+                self.coinstate = self.last_known_valid_coinstate
+                self._cleanup_transaction_pool_for_coinstate(self.coinstate)
+
     def get_get_blocks_message(self) -> GetBlocksMessage:
 
         heights = get_recent_block_heights(self.coinstate.head().height)
